@@ -183,6 +183,19 @@ def config(focus_name, tier):
     return cfg
 
 
+def sim_config():
+    """whole grammar, wide bounds, all alphabets: used with TLC's simulation mode for random larger modules"""
+    cfg = dict(BASE)
+    cfg.update(dict(Enabled=ALL, MaxNodes=60, MaxDecls=4, MaxParams=3, MaxMembers=3, MaxStmts=6, MaxBlock=4, MaxArgs=4,
+                    MaxElems=4, MaxFields=3, MaxSteps=3, Addrs=nset([0, 1, 2]), SetAddrs=nset([0, 1]),
+                    FlagSets="<- FlagSets_all", VarForms="<- VarForms_doc", FnNames=["f", "main"], ParamNames=["p", "q"],
+                    VarNames=["x", "y"], MemberNames=["m", "n"], GotoNames=["l", "return"], IntLits="<- IntLits_all",
+                    CharLits="<- CharLits_all", StrLits="<- StrLits_all", PrimTypes=ALL_PRIM, Builtins=ALL_BUILTINS,
+                    WordSizes=nset([1, 2, 4, 8, 16]), Files="<- Files_all", ArrayLens="<- ArrayLens_all",
+                    TrailingCommas="{TRUE, FALSE}", LooseMembers="TRUE", CmpOps=["==", "!=", "<", ">", "<=", ">="], **EXPR_OPS))
+    return render(cfg, ["EmitCase"])
+
+
 def main():
     for name in FOCI:
         for tier in ("quick", "thorough"):
@@ -197,7 +210,8 @@ def main():
     for open_alphabet in ("FlagSets", "VarForms", "Files", "IntLits", "CharLits", "StrLits", "ArrayLens"):
         tr[open_alphabet] = "{}"      # taken from the recording in trace mode
     open(os.path.join(SPEC, "Trace_Grammar.cfg"), "w").write(render(tr, [], spec="TSpec", extra="POSTCONDITION Accepted"))
-    print("wrote %d configurations" % (2 * len(FOCI) + 1))
+    open(os.path.join(SPEC, "MC_PenneGrammar_sim.cfg"), "w").write(sim_config())
+    print("wrote %d configurations" % (2 * len(FOCI) + 2))
 
 
 if __name__ == "__main__":
